@@ -918,3 +918,12 @@ Proof.
   apply (dt_disjoint (pts ++ super_fixed pts) (length pts)
            (inst_len super_fixed pts (length_super_fixed pts)) GP k _ t u Hk S Lst Ht Hu Ne).
 Qed.
+
+(* the model's output passes the very checker that judges the implementation's output *)
+Theorem bw_passes_checker_proof : forall pts ts,
+  (3 <= length pts)%nat -> gp_strong (pts ++ super_fixed pts) -> bw pts = Some ts ->
+  delaunayb pts ts = true.
+Proof.
+  intros pts ts L GP H. apply delaunay_checker_sound_complete.
+  destruct (bw_delaunay_proof pts ts L GP H) as [A [B [C D]]]. repeat split; assumption.
+Qed.
